@@ -346,6 +346,9 @@ func init() {
 		"internal/race.Enable", "internal/race.Disable", "runtime/debug.PrintStack"} {
 		regSimple(n, func(in *Interp, a []Value) Value { return nil })
 	}
+	// scheduling parameters: one processor (goroutines are run sequentially anyway)
+	regSimple("runtime.GOMAXPROCS", func(in *Interp, a []Value) Value { return in.tb.Int(TI64, 1) })
+	regSimple("runtime.NumCPU", func(in *Interp, a []Value) Value { return in.tb.Int(TI64, 1) })
 	regSimple("internal/abi.NoEscape", func(in *Interp, a []Value) Value { return a[0] })
 	regSimple("internal/abi.Escape", func(in *Interp, a []Value) Value { return a[0] })
 	regSimple("internal/bytealg.MakeNoZero", func(in *Interp, a []Value) Value {
